@@ -327,6 +327,18 @@ func vFixHash(k []byte) {
 	if !found {
 		return
 	}
+	// a key of the same hash class whose bytes cannot be adjusted (length not a multiple
+	// of four) dictates the class's real hash value
+	for _, h := range vVec.Hashes {
+		if h.H == target && (len(h.Key) < 4 || len(h.Key)%4 != 0) {
+			kb := make([]byte, len(h.Key))
+			for i := range kb {
+				kb[i] = byte(h.Key[i])
+			}
+			target = vRealHash(kb, vVec.Seed)
+			break
+		}
+	}
 	const c1, c2 = 0xcc9e2d51, 0x1b873593
 	// state before the last block
 	h1 := vVec.Seed
@@ -353,4 +365,43 @@ func vFixHash(k []byte) {
 	km := x ^ h1
 	k1 := vRotr(km*vInv32(c2), 15) * vInv32(c1)
 	k[n-4], k[n-3], k[n-2], k[n-1] = byte(k1), byte(k1>>8), byte(k1>>16), byte(k1>>24)
+}
+
+// vRealHash is MurmurHash3_x86_32 (same algorithm as internal/hash), used by
+// replays to compute the hash a non-adjustable key really has.
+func vRealHash(data []byte, seed uint32) uint32 {
+	const c1, c2 = 0xcc9e2d51, 0x1b873593
+	h := seed
+	n := len(data)
+	for len(data) >= 4 {
+		k := uint32(data[0]) | uint32(data[1])<<8 | uint32(data[2])<<16 | uint32(data[3])<<24
+		data = data[4:]
+		k *= c1
+		k = vRotl(k, 15)
+		k *= c2
+		h ^= k
+		h = vRotl(h, 13)
+		h = h*5 + 0xe6546b64
+	}
+	var k uint32
+	if len(data) >= 3 {
+		k ^= uint32(data[2]) << 16
+	}
+	if len(data) >= 2 {
+		k ^= uint32(data[1]) << 8
+	}
+	if len(data) >= 1 {
+		k ^= uint32(data[0])
+		k *= c1
+		k = vRotl(k, 15)
+		k *= c2
+		h ^= k
+	}
+	h ^= uint32(n)
+	h ^= h >> 16
+	h *= 0x85ebca6b
+	h ^= h >> 13
+	h *= 0xc2b2ae35
+	h ^= h >> 16
+	return h
 }
